@@ -58,6 +58,11 @@ Print Assumptions C13_rename_visible.
 Definition a1 : darr := Arr [Ax "t" KI [L_ 1; L_ 2; L_ 3] [] []] [3] KI [N_ 1; N_ 2; N_ 3] [].
 Definition b_bad : darr := Arr [Ax "n" KI [L_ 7; L_ 8] [] []; Ax "t" KI [L_ 1; L_ 2; L_ 4] [] []] [2; 3] KI [N_ 1; N_ 2; N_ 3; N_ 4; N_ 5; N_ 6] [].
 (* the history of finding F16: the rejected second assignment leaves dims = ('t',) *)
+(* ds.dims = names (validated first: length, distinct, non-empty; then every axis renamed by position) keeps the whole
+   bookkeeping invariant with no side condition: the names may be a permutation of the current ones *)
+Theorem C13_set_dims_invariant : forall ns s, Inv4 s -> Inv4 (fst (ds_set_dims ns s)).
+Proof. exact set_dims_inv. Qed.
+Print Assumptions C13_set_dims_invariant.
 Example C13_nonvacuous :
   let s1 := fst (ds_setitem "a" a1 ds_empty) in
   ops_ok ds_empty [DSet "a" a1; DSet "b" b_bad; DRenameAxis (ByName "t") "time"] /\
